@@ -5,6 +5,7 @@ import (
 	"fmt"
 	"grog/internal/label"
 	"grog/internal/model"
+	"grog/internal/verifhook"
 	"sort"
 	"time"
 )
@@ -140,6 +141,7 @@ func (g *DirectedTargetGraph) GetDependants(target model.BuildNode) []model.Buil
 func (g *DirectedTargetGraph) GetDescendants(target model.BuildNode) []model.BuildNode {
 	var descendants []model.BuildNode
 	for _, descendant := range g.outEdges[target.GetLabel()] {
+		verifhook.Count("graph.desc.visit")
 		descendants = append(descendants, descendant)
 
 		// Recurse
@@ -154,6 +156,7 @@ func (g *DirectedTargetGraph) GetDescendants(target model.BuildNode) []model.Bui
 func (g *DirectedTargetGraph) GetAncestors(target model.BuildNode) []model.BuildNode {
 	var ancestors []model.BuildNode
 	for _, ancestor := range g.inEdges[target.GetLabel()] {
+		verifhook.Count("graph.anc.visit")
 		ancestors = append(ancestors, ancestor)
 
 		// Recurse
